@@ -333,14 +333,14 @@ def _fold(prop: str, module: Any, tier: str, seed: int,
     for k in sorted(known_seen):
         print(f"KNOWN-FINDING: property={prop} {k} :: {known[k].get('what', '')}"
               f" (seen {known_seen[k]}x this run)")
-    replay_dir = VERIF_ROOT / "replay"
+    replay_dir = Path(os.environ.get("VERIF_REPLAY_DIR", str(VERIF_ROOT / "replay")))
     n_new = 0
     for v in new_viols:
         if v["key"] in seen_new_keys:
             continue
         seen_new_keys.add(v["key"])
         n_new += 1
-        replay_dir.mkdir(exist_ok=True)
+        replay_dir.mkdir(exist_ok=True, parents=True)
         path = replay_dir / f"{prop}-{stable_hash([v['key'], v['witness']], 10)}.json"
         path.write_text(json.dumps(
             {"property": prop, "key": v["key"], "what": v["what"],
@@ -378,8 +378,8 @@ def _fold(prop: str, module: Any, tier: str, seed: int,
           "wall_s": round(wall, 2), "violations": n_new,
           "verdict": ("violated" if n_new else
                       "inconclusive" if inconclusive else "held-on-observed")}
-    evdir = VERIF_ROOT / "evidence"
-    evdir.mkdir(exist_ok=True)
+    evdir = Path(os.environ.get("VERIF_EVIDENCE_DIR", str(VERIF_ROOT / "evidence")))
+    evdir.mkdir(exist_ok=True, parents=True)
     (evdir / f"{prop}.json").write_text(json.dumps(ev, indent=1, sort_keys=False))
 
     print(f"[{prop}] tier={tier} seed={seed} evaluations={evaluations} "
@@ -395,6 +395,23 @@ def _fold(prop: str, module: Any, tier: str, seed: int,
             print(f"INCONCLUSIVE property={prop} reason={r}")
         return EXIT_INCONCLUSIVE
     return EXIT_OK
+
+
+def exc_site(e: BaseException, roots: tuple[str, ...] = ("pytato", "pymbolic", "loopy",
+                                                         "pytools", "islpy")) -> str:
+    """Innermost frame of *e*'s traceback that lies in one of the *roots* packages,
+    as ``file.py:function`` -- the mechanism part of a known-finding key."""
+    import traceback
+    site = "?"
+    for fs in traceback.extract_tb(e.__traceback__):
+        fn = fs.filename.replace("\\", "/")
+        parts = fn.split("/")
+        for r in roots:
+            if r in parts:
+                i = len(parts) - 1 - parts[::-1].index(r)
+                site = "/".join(parts[i:]) + ":" + fs.name
+                break
+    return site
 
 
 def split_even(items: list[Any], n: int) -> list[list[Any]]:
